@@ -21,7 +21,7 @@ for d in sorted(glob.glob('/verif/seeded/*/')):
     cb=m['caught_by'][0].split('/',1)[1] if m['caught_by'] else '-'
     n=len(m['caught_by'])
     w=m['caught_when']
-    when='as registered' if (w.startswith('as registered') or w.startswith('initially')) else 'after strengthening'
+    when='as registered' if (w.startswith('as registered') or w.startswith('initially')) else ('NOT caught (corpus/missed)' if w.startswith('NOT caught') else 'after strengthening')
     rows.append(f"| {m['id']} | `{cb}`{' (+%d more)'%(n-1) if n>1 else ''} | {when} |")
 st="| seeded change | first obligation that fails | caught |\n|---|---|---|\n"+'\n'.join(rows)
 a='<!-- seeded-table:begin -->'; b='<!-- seeded-table:end -->'
